@@ -6,20 +6,111 @@ package control
 // Lean model driver c12drv.  One op per line; see lean/DaeVerif/C12/Main.lean.
 
 import (
-	"github.com/daeuniverse/dae/config"
 	"encoding/binary"
 	"encoding/hex"
+	"errors"
 	"fmt"
 	"net/netip"
+	"sort"
 	"strings"
+	"sync"
 	"testing"
 	"unsafe"
 
+	"github.com/cilium/ebpf"
+	"github.com/daeuniverse/dae/common/assets"
+	"github.com/daeuniverse/dae/common/consts"
 	"github.com/daeuniverse/dae/component/routing"
+	"github.com/daeuniverse/dae/config"
 	"github.com/daeuniverse/dae/pkg/config_parser"
 	"github.com/daeuniverse/dae/pkg/trie"
 	"github.com/sirupsen/logrus"
 )
+
+// ---------------------------------------------------------------------------------------------
+// REAL kernel LPM tries: the keys of production cidrToBpfLpmKey go through production
+// bpfObjects.newLpmMap (ebpf.NewMap + BpfMapBatchUpdate, genuine batch or the simulated loop) into a
+// BPF_MAP_TYPE_LPM_TRIE of the running kernel, and probes are looked up the way tproxy.c does it
+// (prefixlen 128, the 16 address bytes as they are in the packet).  When the sandbox has no bpf(2)
+// the stream is reported as unavailable (the LPM contract then stays a trusted assumption).
+type c12Kern struct {
+	bpf    *bpfObjects
+	ok     bool
+	why    string
+	detSim bool // what the production feature detection chose for LPM batch updates
+}
+
+func c12LpmSpec(maxEntries uint32) *ebpf.MapSpec {
+	// as declared in control/kern/tproxy.c (unused_lpm_type): key = struct lpm_key, value = __u32
+	return &ebpf.MapSpec{Type: ebpf.LPMTrie, KeySize: uint32(unsafe.Sizeof(_bpfLpmKey{})), ValueSize: 4, MaxEntries: maxEntries, Flags: 1 /* BPF_F_NO_PREALLOC */}
+}
+
+func c12NewKern(stats *VStats) *c12Kern {
+	m, err := ebpf.NewMap(c12LpmSpec(2048000))
+	if err != nil {
+		stats.Inc("kern.unavailable")
+		stats.Sample("kernel LPM stream unavailable: " + err.Error())
+		return &c12Kern{why: err.Error()}
+	}
+	k := &c12Kern{bpf: &bpfObjects{}, ok: true}
+	k.bpf.UnusedLpmType = m
+	// let the production feature detection run once, through the production path
+	var a16 [16]byte
+	a16[15] = 1
+	mm, err := k.bpf.newLpmMap([]_bpfLpmKey{cidrToBpfLpmKey(netip.PrefixFrom(netip.AddrFrom16(a16), 128))}, []uint32{1})
+	if err != nil {
+		// the sandbox lets us create a trie but not fill it the production way: environment, not a verdict
+		stats.Inc("kern.unavailable")
+		stats.Sample("kernel LPM stream unavailable (first production newLpmMap): " + err.Error())
+		_ = m.Close()
+		return &c12Kern{why: err.Error()}
+	}
+	_ = mm.Close()
+	k.detSim = SimulateBatchUpdateLpmTrie
+	if k.detSim {
+		stats.Inc("kern.detected_simulated_batch")
+	} else {
+		stats.Inc("kern.detected_genuine_batch")
+	}
+	return k
+}
+
+// build: production newLpmMap; mode 1 forces the simulated (per-key Update) path of BpfMapBatchUpdate,
+// mode 0 is what the feature detection chose.
+func (k *c12Kern) build(keys []_bpfLpmKey, mode int, stats *VStats) (*ebpf.Map, error) {
+	values := make([]uint32, len(keys))
+	for i := range values {
+		values[i] = 1
+	}
+	old := SimulateBatchUpdateLpmTrie
+	if mode == 1 {
+		SimulateBatchUpdateLpmTrie = true
+	}
+	defer func() { SimulateBatchUpdateLpmTrie = old }()
+	if SimulateBatchUpdateLpmTrie {
+		stats.Inc("kern.map.simulated_batch")
+	} else {
+		stats.Inc("kern.map.genuine_batch")
+	}
+	return k.bpf.newLpmMap(keys, values)
+}
+
+func c12KernLookup(m *ebpf.Map, a16 [16]byte) string {
+	var hk _bpfLpmKey
+	hk.PrefixLen = 128
+	*(*[16]byte)(unsafe.Pointer(&hk.Data[0])) = a16
+	var v uint32
+	err := m.Lookup(&hk, &v)
+	switch {
+	case err == nil && v == 1:
+		return "1"
+	case err == nil:
+		return fmt.Sprintf("val%d", v)
+	case errors.Is(err, ebpf.ErrKeyNotExist):
+		return "0"
+	}
+	return "err:" + err.Error()
+}
 
 func c12Tok(p netip.Prefix) string {
 	if p.Addr().Is4() {
@@ -193,6 +284,10 @@ func TestVerifC12(t *testing.T) {
 	}
 	log := logrus.New()
 	log.SetLevel(logrus.PanicLevel)
+	kern := c12NewKern(stats)
+	if kern.ok {
+		defer kern.bpf.UnusedLpmType.Close()
+	}
 
 	// --- stream 1: bit strings, kernel keys, set membership three ways
 	// every prefix length of both families once, as a singleton set, with the boundary probes
@@ -279,6 +374,16 @@ func TestVerifC12(t *testing.T) {
 		for i, p := range ps {
 			keys[i] = cidrToBpfLpmKey(p)
 		}
+		var kmap *ebpf.Map
+		kerr := ""
+		matchOp := "match "
+		if kern.ok {
+			matchOp = "matchk "
+			var err error
+			if kmap, err = kern.build(keys, si%2, stats); err != nil {
+				kerr = "err:newLpmMap:" + err.Error()
+			}
+		}
 		var probes []netip.Addr
 		for _, p := range ps {
 			if len(probes) > 60 {
@@ -304,7 +409,7 @@ func TestVerifC12(t *testing.T) {
 		}
 		for _, a := range probes {
 			a16 := a.As16()
-			op := "match " + hex.EncodeToString(a16[:]) + " " + strings.Join(toks, " ")
+			op := matchOp + hex.EncodeToString(a16[:]) + " " + strings.Join(toks, " ")
 			out := buildErr
 			if out == "" {
 				out = VRecover(func() string {
@@ -330,10 +435,26 @@ func TestVerifC12(t *testing.T) {
 						}
 						stats.Inc(fmt.Sprintf("sweep.%s.len%03d.%s", fam, ps[0].Bits(), c12Bool(tm)))
 					}
-					return fmt.Sprintf("trie=%s lpm=%s spec=%s", c12Bool(tm), c12Bool(lm), c12Bool(sp))
+					res := fmt.Sprintf("trie=%s lpm=%s spec=%s", c12Bool(tm), c12Bool(lm), c12Bool(sp))
+					if kern.ok {
+						kv := kerr
+						if kv == "" {
+							kv = c12KernLookup(kmap, a16)
+						}
+						if kv == "1" {
+							stats.Inc("kern.hit")
+						} else if kv == "0" {
+							stats.Inc("kern.miss")
+						}
+						res += " kern=" + kv
+					}
+					return res
 				})
 			}
 			st.Emit(op, out)
+		}
+		if kmap != nil {
+			_ = kmap.Close()
 		}
 		// canonicalize
 		st.Emit("canon "+strings.Join(toks, " "), VRecover(func() string {
@@ -402,7 +523,11 @@ func TestVerifC12(t *testing.T) {
 			}
 			return "pfx=" + c12Tok(got[0])
 		}))
+		// the same text, parsed by the MODEL of parsePrefixes / netip.ParsePrefix
+		st.Emit("ptxt "+hex.EncodeToString([]byte(text)), c12ParseText(log, text))
+		stats.Inc("ptxt.valid_spelling")
 	}
+	c12TextStream(r, stats, st, log, nText)
 
 	// --- stream 2: sharing decisions of the real builder (addIp / addSourceIp / addSourceMac share lpmDedup)
 	nShare := 150
@@ -658,5 +783,615 @@ func TestVerifC12(t *testing.T) {
 			return out
 		}))
 	}
+	// --- stream 3: a failing batch update must fail the build, never leave a truncated set behind
+	if kern.ok {
+		for mode := 0; mode < 2; mode++ {
+			mode := mode
+			st.Emit(fmt.Sprintf("kfault 4 9 %d", mode), VRecover(func() string {
+				small, err := ebpf.NewMap(c12LpmSpec(4))
+				if err != nil {
+					return "refused" // environment: nothing to observe
+				}
+				defer small.Close()
+				k2 := &c12Kern{bpf: &bpfObjects{}, ok: true}
+				k2.bpf.UnusedLpmType = small
+				keys := make([]_bpfLpmKey, 9)
+				for i := range keys {
+					keys[i] = cidrToBpfLpmKey(netip.PrefixFrom(netip.AddrFrom4([4]byte{10, 0, byte(i), 1}), 32))
+				}
+				m, err := k2.build(keys, mode, stats)
+				stats.Inc("kern.fault_injected")
+				if err != nil {
+					return "refused"
+				}
+				defer m.Close()
+				n := 0
+				for i := range keys {
+					var v uint32
+					if m.Lookup(&keys[i], &v) == nil {
+						n++
+					}
+				}
+				return fmt.Sprintf("accepted a set of 9 into a trie of capacity 4: %d keys present", n)
+			}))
+		}
+	}
+	// --- stream 4: address-set rules end to end, generation after generation
+	c12RouteStream(r, stats, st, log, kern)
 	stats.Add("ops", st.N)
+}
+
+
+// ---------------------------------------------------------------------------------------------
+// text of a set entry: the real routing.IpParserFactory (parsePrefixes) on one value
+func c12ParseText(log *logrus.Logger, text string) string {
+	return VRecover(func() string {
+		var got []netip.Prefix
+		parser := routing.IpParserFactory(func(f *config_parser.Function, cidrs []netip.Prefix, o *routing.Outbound) error {
+			got = cidrs
+			return nil
+		})
+		if err := parser(log, &config_parser.Function{Name: "ip"}, "", []string{text}, &routing.Outbound{Name: "direct"}); err != nil {
+			return "err"
+		}
+		if len(got) != 1 {
+			return fmt.Sprintf("err:%d prefixes", len(got))
+		}
+		return "pfx=" + c12Tok(got[0])
+	})
+}
+
+// c12Spell renders a typed prefix in one of the spellings the configuration admits.
+func c12Spell(r *VRand, p netip.Prefix, stats *VStats) string {
+	a := p.Addr()
+	host := p.Bits() == a.BitLen()
+	text := p.String()
+	if host && r.Chance(0.5) {
+		text = a.String()
+	}
+	if a.Is6() && r.Chance(0.35) {
+		b := a.As16()
+		g := func(i int) uint16 { return uint16(b[i])<<8 | uint16(b[i+1]) }
+		var t string
+		switch r.Intn(3) {
+		case 0: // all eight groups, no ellipsis
+			t = fmt.Sprintf("%x:%x:%x:%x:%x:%x:%x:%x", g(0), g(2), g(4), g(6), g(8), g(10), g(12), g(14))
+		case 1: // embedded dotted quad in the last position
+			t = fmt.Sprintf("%x:%x:%x:%x:%x:%x:%d.%d.%d.%d", g(0), g(2), g(4), g(6), g(8), g(10), b[12], b[13], b[14], b[15])
+			stats.Inc("spell.v6_dotted_quad")
+		default: // zero-padded groups
+			t = fmt.Sprintf("%04x:%04x:%04x:%04x:%04x:%04x:%04x:%04x", g(0), g(2), g(4), g(6), g(8), g(10), g(12), g(14))
+		}
+		if host && r.Bool() {
+			text = t
+		} else {
+			text = fmt.Sprintf("%s/%d", t, p.Bits())
+		}
+	}
+	if r.Chance(0.2) {
+		text = strings.ToUpper(text)
+	}
+	return text
+}
+
+// c12TextStream: boundary lengths, malformed and mutated texts — what the real parser refuses the model
+// must refuse, and what it accepts must be the same prefix.
+func c12TextStream(r *VRand, stats *VStats, st *VStream, log *logrus.Logger, n int) {
+	emit := func(class, text string) {
+		out := c12ParseText(log, text)
+		if strings.HasPrefix(out, "pfx=") {
+			stats.Inc("ptxt." + class + ".accepted")
+		} else {
+			stats.Inc("ptxt." + class + ".refused")
+		}
+		st.Emit("ptxt "+hex.EncodeToString([]byte(text)), out)
+	}
+	directed := []string{
+		"0.0.0.0/0", "::/0", "255.255.255.255/32", "255.255.255.255/33", "1.2.3.4/128", "1.2.3.4/96",
+		"ffff:ffff:ffff:ffff:ffff:ffff:ffff:ffff/128", "ffff:ffff:ffff:ffff:ffff:ffff:ffff:ffff/129",
+		"::ffff:1.2.3.4", "::ffff:1.2.3.4/96", "::ffff:1.2.3.4/32", "::1.2.3.4", "64:ff9b::192.0.2.1", "64:ff9b::192.0.2.1/96",
+		"1:2:3:4:5:6:7.8.9.10", "1:2:3:4:5:6:7:8.9.10.11", "1:2:3:4:5:7.8.9.10", "::1:2:3:4:5:6:7.8.9.10", "1.2.3.4::", "::1.2.3.4:5",
+		"1.2.3.4/08", "1.2.3.4/+8", "1.2.3.4/-0", "1.2.3.4/", "1.2.3.4/ 8", "1.2.3.4/8 ", " 1.2.3.4", "1.2.3.4/0x8", "1.2.3.4/8/8", "1.2.3.4//8",
+		"01.2.3.4", "1.2.3.04", "1.2.3.256", "1.2.3", "1.2.3.4.5", "1..3.4", ".1.2.3", "1.2.3.", "1.2.3.4.", "0.0.0.0", "00.0.0.0",
+		"::", ":::", "::/128", "1::", "1::/16", "::1", ":1", "1:", "1:2:3:4:5:6:7:8", "1:2:3:4:5:6:7:8:9", "1:2:3:4:5:6:7::8", "1:2:3:4:5:6:7::",
+		"::2:3:4:5:6:7:8", "1:2:3:4:5:6:7:8::", "1::2::3", "1:::2", "12345::", "1234::", "g::", "::g", "fe80::1%eth0", "fe80::1%eth0/64", "fe80::1%/64", "%eth0",
+		"1.2.3.4%eth0", "", "/", "/8", "abc", "1234", "::/", "::/00", "::/1", "::/128", "::/0128", "10.0.0.0/8", "10.1.2.3/8", "2001:DB8::/32", "2001:db8::/032",
+		"1:2:3:4:5:6:77777:8", "1:2:3:4:5:6:1.2.3.4/128", "1:2:3:4:5:6:1.2.3.4/129", "::ffff:256.1.1.1", "::ffff:1.2.3", "::ffff:01.2.3.4", "::a.1.2.3", "::1.2.3.4.5",
+		"\xff.1.2.3", "1.2.3.4\x00", "::ffff:0:0/96", "0::0", "0:0:0:0:0:0:0:0", "0:0:0:0:0:0:0:0:0", "::0.0.0.0", "::1/127", "1.1.1.1/31", "1.1.1.1/32", "1.1.1.1/1", "128.0.0.0/1",
+	}
+	for _, t := range directed {
+		emit("directed", t)
+	}
+	// every length at and just beyond the limits of both families
+	for _, L := range []int{0, 1, 7, 8, 9, 31, 32, 33, 95, 96, 97, 127, 128, 129, 255, 256, 1000} {
+		emit("limit", fmt.Sprintf("10.1.2.3/%d", L))
+		emit("limit", fmt.Sprintf("2001:db8::1/%d", L))
+		emit("limit", fmt.Sprintf("::ffff:10.1.2.3/%d", L))
+	}
+	// mutated spellings: one or two edits of a valid text (most become invalid, some stay valid and mean
+	// something else)
+	alphabet := "0123456789abcdefABCDEF::..//%g +-"
+	for i := 0; i < n; i++ {
+		b := []byte(c12Spell(r, c12RandPrefix(r, stats), stats))
+		for e := 0; e <= r.Intn(2); e++ {
+			pos := r.Intn(len(b) + 1)
+			c := alphabet[r.Intn(len(alphabet))]
+			switch r.Intn(5) {
+			case 0:
+				if pos < len(b) {
+					b = append(b[:pos:pos], b[pos+1:]...)
+				}
+			case 1:
+				b = append(b[:pos:pos], append([]byte{c}, b[pos:]...)...)
+			case 2:
+				if pos < len(b) {
+					b[pos] = c
+				}
+			case 3:
+				if pos < len(b) {
+					b = append(b[:pos:pos], append([]byte{b[pos]}, b[pos:]...)...)
+				}
+			default:
+				b = append(b, []byte(fmt.Sprintf("/%d", r.Intn(140)))...)
+			}
+		}
+		emit("mutated", string(b))
+	}
+}
+
+// ---------------------------------------------------------------------------------------------
+// Address-set rules end to end, in the shape production drives them: routing text -> config_parser ->
+// config.New -> NewNormalizedProgram (optimizer chain) -> NewRoutingMatcherBuilderFromProgram ->
+// KernspaceSnapshot -> BuildUserspace -> ControlPlane.Route, generation after generation; the kernel
+// form of every compiled set (index bytes of the rule image -> snapshot set -> production keys -> REAL
+// kernel trie) against the userspace trie the matcher reads for the same rule; older generations are
+// revisited after newer builders ran (RebuildReloadDatapath re-installs from an OLD snapshot), and the
+// matcher is queried from many goroutines at once.
+
+type c12Rule struct {
+	kind byte // 'D' dip/ip, 'S' sip, 'M' mac
+	neg  bool
+	out  int
+	pfx  []netip.Prefix
+	macs [][6]byte
+}
+
+type c12Pkt struct {
+	src, dst netip.Addr
+	mac      [6]byte
+}
+
+type c12Gen struct {
+	id      int
+	cp      *ControlPlane
+	snap    *routingKernspaceSnapshot
+	pkts    []c12Pkt
+	outs    []string
+	keyHash []string // per LPM slot: the production keys generated from the snapshot right after the build
+	probes  [][]netip.Addr
+	setAns  [][]bool // userspace answers per slot / probe
+}
+
+var c12OutNames = []string{"direct", "block", "pa", "pb", "pc"}
+
+func c12RouteText(r *VRand, rules []c12Rule, fb int, alias bool, stats *VStats) string {
+	var sb strings.Builder
+	sb.WriteString("global {}\nrouting {\n")
+	for _, ru := range rules {
+		var vs []string
+		name := "sip"
+		switch ru.kind {
+		case 'D':
+			name = "ip"
+			if alias {
+				name = "dip"
+			}
+			fallthrough
+		case 'S':
+			for _, p := range ru.pfx {
+				vs = append(vs, "'"+c12Spell(r, p, stats)+"'")
+			}
+		case 'M':
+			name = "mac"
+			for _, m := range ru.macs {
+				t := fmt.Sprintf("%02x:%02x:%02x:%02x:%02x:%02x", m[0], m[1], m[2], m[3], m[4], m[5])
+				if r.Chance(0.3) {
+					t = strings.ToUpper(t)
+				}
+				vs = append(vs, "'"+t+"'")
+			}
+		}
+		neg := ""
+		if ru.neg {
+			neg = "!"
+		}
+		fmt.Fprintf(&sb, "  %s%s(%s) -> %s\n", neg, name, strings.Join(vs, ", "), c12OutNames[ru.out])
+	}
+	fmt.Fprintf(&sb, "  fallback: %s\n}\n", c12OutNames[fb])
+	return sb.String()
+}
+
+func c12RuleTokens(rules []c12Rule) string {
+	var toks []string
+	for _, ru := range rules {
+		h := string(ru.kind)
+		if ru.neg {
+			h += "!"
+		}
+		toks = append(toks, fmt.Sprintf("%s:%d", h, ru.out))
+		if ru.kind == 'M' {
+			for _, m := range ru.macs {
+				toks = append(toks, hex.EncodeToString(m[:]))
+			}
+		} else {
+			for _, p := range ru.pfx {
+				toks = append(toks, c12Tok(p))
+			}
+		}
+	}
+	return strings.Join(toks, " ")
+}
+
+func c12RouteOnce(cp *ControlPlane, pk c12Pkt) string {
+	return VRecover(func() string {
+		rr := &bpfRoutingResult{Mac: pk.mac}
+		out, _, _, err := cp.Route(netip.AddrPortFrom(pk.src, 40000), netip.AddrPortFrom(pk.dst, 443), "", consts.L4ProtoType_TCP, rr)
+		if err != nil {
+			return "err:" + err.Error()
+		}
+		return fmt.Sprintf("out=%d", int(out))
+	})
+}
+
+func c12KeysHash(keys []_bpfLpmKey) string {
+	o := make([]string, len(keys))
+	for i := range keys {
+		d := *(*[16]byte)(unsafe.Pointer(&keys[i].Data[0]))
+		o[i] = fmt.Sprintf("%d:%x", keys[i].PrefixLen, d)
+	}
+	return strings.Join(o, ",")
+}
+
+func c12RouteStream(r *VRand, stats *VStats, st *VStream, log *logrus.Logger, kern *c12Kern) {
+	nProg, nPkt := 70, 24
+	if VThorough() {
+		nProg, nPkt = 900, 40
+	}
+	name2id := map[string]uint8{}
+	for i, n := range c12OutNames {
+		name2id[n] = uint8(i)
+	}
+	var window []*c12Gen
+	var prevRules []c12Rule
+	for gi := 0; gi < nProg; gi++ {
+		nr := 1 + r.Intn(5)
+		if gi%3 == 1 {
+			nr = 6 + r.Intn(10) // more than 4 address sets: parallel paths
+		}
+		var macPool [][6]byte
+		for i := 0; i < 3; i++ {
+			var m [6]byte
+			binary.BigEndian.PutUint32(m[2:], uint32(r.U64()))
+			m[0] = byte(r.Intn(256))
+			macPool = append(macPool, m)
+		}
+		var rules []c12Rule
+		if prevRules != nil && r.Chance(0.4) {
+			// a reload is usually the previous configuration, slightly edited
+			for _, ru := range prevRules {
+				cp := ru
+				cp.pfx = append([]netip.Prefix(nil), ru.pfx...)
+				cp.macs = append([][6]byte(nil), ru.macs...)
+				rules = append(rules, cp)
+			}
+			k := r.Intn(len(rules))
+			switch e := r.Intn(4); {
+			case e == 0 && len(rules[k].pfx) > 0:
+				j := r.Intn(len(rules[k].pfx))
+				q := rules[k].pfx[j]
+				nb := q.Bits() + 1 - 2*r.Intn(2)
+				if nb < 1 || nb > q.Addr().BitLen() {
+					nb = q.Bits()/2 + 1
+				}
+				rules[k].pfx[j] = netip.PrefixFrom(q.Addr(), nb)
+			case e == 1:
+				rules[k].neg = !rules[k].neg
+			case e == 2 && len(rules[k].macs) > 0:
+				rules[k].macs[r.Intn(len(rules[k].macs))][5] ^= byte(1 + r.Intn(255))
+			default:
+				rules[k].out = (rules[k].out + 1 + r.Intn(len(c12OutNames)-1)) % len(c12OutNames)
+			}
+			nr = 0
+			stats.Inc("route.prog.edited_reload")
+		}
+		for i := 0; i < nr; i++ {
+			ru := c12Rule{neg: r.Chance(0.25), out: r.Intn(len(c12OutNames))}
+			switch r.Intn(5) {
+			case 0, 1:
+				ru.kind = 'D'
+			case 2, 3:
+				ru.kind = 'S'
+			default:
+				ru.kind = 'M'
+			}
+			if ru.kind == 'M' {
+				for j := 0; j <= r.Intn(3); j++ {
+					ru.macs = append(ru.macs, macPool[r.Intn(len(macPool))])
+				}
+				stats.Inc("route.rule.mac")
+			} else {
+				np := 1 + r.Intn(4)
+				for j := 0; j < np; j++ {
+					p := c12RandPrefix(r, stats)
+					for p.Bits() == 0 && r.Chance(0.9) {
+						p = c12RandPrefix(r, stats)
+					}
+					ru.pfx = append(ru.pfx, p)
+				}
+				if i > 0 && r.Chance(0.3) { // the same set again (dip and sip share slots), permuted, or a near twin
+					for k := i - 1; k >= 0; k-- {
+						if rules[k].kind != 'M' {
+							ru.pfx = append([]netip.Prefix(nil), rules[k].pfx...)
+							switch r.Intn(3) {
+							case 0:
+								ru.pfx = append(ru.pfx, ru.pfx[0])
+								ru.pfx[0], ru.pfx[len(ru.pfx)-1] = ru.pfx[len(ru.pfx)-1], ru.pfx[0]
+								stats.Inc("route.set.same_again")
+							case 1:
+								q := ru.pfx[0]
+								if q.Bits() > 1 {
+									ru.pfx[0] = netip.PrefixFrom(q.Addr(), q.Bits()-1)
+								}
+								stats.Inc("route.set.near_twin")
+							default:
+								stats.Inc("route.set.same_again")
+							}
+							break
+						}
+					}
+				}
+				stats.Inc("route.rule.ip")
+			}
+			if ru.neg {
+				stats.Inc("route.rule.negated")
+			}
+			rules = append(rules, ru)
+		}
+		prevRules = rules
+		fb := r.Intn(len(c12OutNames))
+		alias := r.Bool()
+		text := c12RouteText(r, rules, fb, alias, stats)
+		if gi < 2 {
+			stats.Sample(text)
+		}
+		ruleToks := c12RuleTokens(rules)
+		g := &c12Gen{id: gi}
+		var b *RoutingMatcherBuilder
+		var m *RoutingMatcher
+		buildOut := VRecover(func() string {
+			sections, err := config_parser.Parse(text)
+			if err != nil {
+				return "err:parse:" + err.Error()
+			}
+			conf, err := config.New(sections)
+			if err != nil {
+				return "err:config:" + err.Error()
+			}
+			var opts []routing.RulesOptimizer
+			if alias {
+				opts = append(opts, &routing.AliasOptimizer{})
+			}
+			if r.Chance(0.7) {
+				opts = append(opts, &routing.DatReaderOptimizer{Logger: log, LocationFinder: assets.NewLocationFinder(nil)},
+					&routing.MergeAndSortRulesOptimizer{}, &routing.DeduplicateParamsOptimizer{})
+				stats.Inc("route.prog.production_optimizers")
+			}
+			program, err := routing.NewNormalizedProgram(conf.Routing.Rules, conf.Routing.Fallback, opts...)
+			if err != nil {
+				return "err:program:" + err.Error()
+			}
+			if b, err = NewRoutingMatcherBuilderFromProgram(log, program, name2id, nil); err != nil {
+				return "err:builder:" + err.Error()
+			}
+			// production order of a staged (re)load: snapshot first, userspace build second, kernel install last
+			g.snap = b.KernspaceSnapshot()
+			if m, err = b.BuildUserspace(); err != nil {
+				return "err:build:" + err.Error()
+			}
+			return "ok"
+		})
+		if buildOut != "ok" {
+			// a generated program is well-formed: the model routes it
+			st.Emit(fmt.Sprintf("route 00 00 00 %d %s", fb, ruleToks), buildOut)
+			continue
+		}
+		stats.Inc("route.prog")
+		nSlots := len(g.snap.simulatedLpmTries)
+		if nSlots > 4 {
+			stats.Inc("route.prog.parallel_build")
+		} else {
+			stats.Inc("route.prog.serial_build")
+		}
+		g.cp = &ControlPlane{}
+		g.cp.routingMatcher = m
+
+		// --- whole-program decisions: real Route vs the model (compile with sharing, match through slots)
+		for k := 0; k < nPkt; k++ {
+			pk := c12Pkt{src: c12RandAddr(r), dst: c12RandAddr(r)}
+			aim := rules[r.Intn(len(rules))]
+			if len(aim.pfx) > 0 {
+				pr := c12Probes(r, aim.pfx[r.Intn(len(aim.pfx))])
+				a := pr[r.Intn(len(pr))]
+				if a.Is4In6() && r.Chance(0.6) {
+					a = a.Unmap()
+				}
+				if aim.kind == 'D' {
+					pk.dst = a
+				} else {
+					pk.src = a
+				}
+			}
+			switch r.Intn(4) {
+			case 0: // zero MAC (no source MAC known)
+			case 1:
+				binary.BigEndian.PutUint32(pk.mac[2:], uint32(r.U64()))
+			default:
+				pk.mac = macPool[r.Intn(len(macPool))]
+			}
+			s16, d16 := pk.src.As16(), pk.dst.As16()
+			out := c12RouteOnce(g.cp, pk)
+			stats.Inc("route.decision." + out)
+			g.pkts = append(g.pkts, pk)
+			g.outs = append(g.outs, out)
+			st.Emit(fmt.Sprintf("route %s %s %s %d %s", hex.EncodeToString(s16[:]), hex.EncodeToString(d16[:]), hex.EncodeToString(pk.mac[:]), fb, ruleToks), out)
+		}
+
+		// --- every compiled address set three ways: index bytes of the kernel rule image == index the userspace
+		// matcher reads; snapshot set -> production keys -> REAL kernel trie == userspace trie == netip containment
+		st.Emit(fmt.Sprintf("kcheck %d", gi), VRecover(func() string {
+			if len(g.snap.rules) != len(m.compiledMatches) {
+				return fmt.Sprintf("kernel image has %d rules, userspace %d", len(g.snap.rules), len(m.compiledMatches))
+			}
+			if len(m.lpmMatcher) != nSlots {
+				return fmt.Sprintf("userspace has %d tries, snapshot %d sets", len(m.lpmMatcher), nSlots)
+			}
+			for i, ru := range g.snap.rules {
+				switch consts.MatchType(ru.Type) {
+				case consts.MatchType_IpSet, consts.MatchType_SourceIpSet, consts.MatchType_Mac:
+					kidx := binary.LittleEndian.Uint32(ru.Value[:4])
+					if kidx != m.compiledMatches[i].lpmIndex || int(kidx) >= nSlots {
+						return fmt.Sprintf("match set %d: kernel image says slot %d, userspace reads slot %d (%d slots)", i, kidx, m.compiledMatches[i].lpmIndex, nSlots)
+					}
+					stats.Inc("route.kcheck.rule_index")
+				}
+			}
+			g.keyHash = make([]string, nSlots)
+			g.probes = make([][]netip.Addr, nSlots)
+			g.setAns = make([][]bool, nSlots)
+			for si := 0; si < nSlots; si++ {
+				set := g.snap.simulatedLpmTries[si]
+				if len(set) == 0 {
+					return fmt.Sprintf("slot %d: the snapshot's set is empty", si)
+				}
+				keys := make([]_bpfLpmKey, len(set))
+				for j, p := range set {
+					keys[j] = cidrToBpfLpmKey(p)
+				}
+				g.keyHash[si] = c12KeysHash(keys)
+				var kmap *ebpf.Map
+				if kern.ok {
+					var err error
+					if kmap, err = kern.build(keys, (gi+si)%2, stats); err != nil {
+						return fmt.Sprintf("slot %d: newLpmMap: %v", si, err)
+					}
+				}
+				var probes []netip.Addr
+				for _, p := range set {
+					if len(probes) < 24 {
+						probes = append(probes, c12Probes(r, p)...)
+					}
+				}
+				probes = append(probes, c12RandAddr(r), c12RandAddr(r))
+				for _, a := range probes {
+					a16 := a.As16()
+					um := m.lpmMatcher[si].HasPrefix(trie.Prefix2bin128(netip.PrefixFrom(netip.AddrFrom16(a16), 128)))
+					sp := false
+					for _, p := range set {
+						if c12Contains(p, a) {
+							sp = true
+						}
+					}
+					km := c12Bool(c12LpmLookup(keys, a16))
+					if kern.ok {
+						km = c12KernLookup(kmap, a16)
+					}
+					stats.Inc("route.kcheck.probe")
+					if c12Bool(um) != km || um != sp {
+						if kmap != nil {
+							_ = kmap.Close()
+						}
+						return fmt.Sprintf("slot %d probe %s: contained=%v userspace=%v kernel=%s", si, a, sp, um, km)
+					}
+					g.setAns[si] = append(g.setAns[si], um)
+				}
+				g.probes[si] = probes
+				if kmap != nil {
+					_ = kmap.Close()
+				}
+			}
+			return "ok"
+		}))
+
+		// --- the matcher is shared by every connection handler: the same questions from 8 goroutines at once
+		st.Emit(fmt.Sprintf("conc %d", gi), VRecover(func() string {
+			var wg sync.WaitGroup
+			var mu sync.Mutex
+			var diffs []string
+			for w := 0; w < 8; w++ {
+				wg.Add(1)
+				go func(w int) {
+					defer wg.Done()
+					for rep := 0; rep < 3; rep++ {
+						for k := range g.pkts {
+							kk := (k + w*7) % len(g.pkts)
+							if out := c12RouteOnce(g.cp, g.pkts[kk]); out != g.outs[kk] {
+								mu.Lock()
+								diffs = append(diffs, fmt.Sprintf("packet %d: alone %s, concurrently %s", kk, g.outs[kk], out))
+								mu.Unlock()
+							}
+						}
+						for si := range g.probes {
+							for pi, a := range g.probes[si] {
+								a16 := a.As16()
+								um := m.lpmMatcher[si].HasPrefix(trie.Prefix2bin128(netip.PrefixFrom(netip.AddrFrom16(a16), 128)))
+								if um != g.setAns[si][pi] {
+									mu.Lock()
+									diffs = append(diffs, fmt.Sprintf("slot %d probe %s: alone %v, concurrently %v", si, a, g.setAns[si][pi], um))
+									mu.Unlock()
+								}
+							}
+						}
+					}
+				}(w)
+			}
+			wg.Wait()
+			stats.Inc("route.concurrent_replay")
+			if len(diffs) > 0 {
+				sort.Strings(diffs)
+				return "changed: " + diffs[0]
+			}
+			return "stable"
+		}))
+
+		// --- an OLDER generation, after newer builders ran: its matcher still answers the same, and a kernel
+		// install from its (old) snapshot would write the same keys (RebuildReloadDatapath / a late commit)
+		window = append(window, g)
+		if len(window) > 3 {
+			window = window[1:]
+		}
+		if len(window) >= 2 {
+			old := window[r.Intn(len(window)-1)]
+			st.Emit(fmt.Sprintf("regen %d %d", old.id, gi), VRecover(func() string {
+				for k, pk := range old.pkts {
+					if out := c12RouteOnce(old.cp, pk); out != old.outs[k] {
+						return fmt.Sprintf("changed: generation %d packet %d answered %s, now %s", old.id, k, old.outs[k], out)
+					}
+				}
+				if len(old.snap.simulatedLpmTries) != len(old.keyHash) {
+					return fmt.Sprintf("changed: generation %d snapshot had %d sets, now %d", old.id, len(old.keyHash), len(old.snap.simulatedLpmTries))
+				}
+				for si, set := range old.snap.simulatedLpmTries {
+					keys := make([]_bpfLpmKey, len(set))
+					for j, p := range set {
+						keys[j] = cidrToBpfLpmKey(p)
+					}
+					if c12KeysHash(keys) != old.keyHash[si] {
+						return fmt.Sprintf("changed: generation %d slot %d: the snapshot now yields other kernel keys", old.id, si)
+					}
+				}
+				stats.Inc("route.old_generation_revisited")
+				return "stable"
+			}))
+		}
+	}
 }
